@@ -1883,12 +1883,13 @@ class Client:
 
         if subfunction in [services.ReadDTCInformation.Subfunction.reportDTCSnapshotRecordByRecordNumber, services.ReadDTCInformation.Subfunction.reportDTCSnapshotRecordByDTCNumber, services.ReadDTCInformation.Subfunction.reportUserDefMemoryDTCSnapshotRecordByDTCNumber]:
             assert snapshot_record_number is not None
-            if len(response.service_data.dtcs) == 1 and snapshot_record_number != 0xFF:
-                for snapshot in response.service_data.dtcs[0].snapshots:
-                    gotten_record_number = snapshot if isinstance(snapshot, int) else snapshot.record_number
-                    if gotten_record_number != snapshot_record_number:
-                        raise UnexpectedResponseException(response, 'Server returned snapshot with record number %s while client requested for 0x%02x' % (
-                            '0x%02x' % gotten_record_number if gotten_record_number is not None else '<None>', snapshot_record_number))
+            if snapshot_record_number != 0xFF:
+                for dtc_obj in response.service_data.dtcs:
+                    for snapshot in dtc_obj.snapshots:
+                        gotten_record_number = snapshot if isinstance(snapshot, int) else snapshot.record_number
+                        if gotten_record_number != snapshot_record_number:
+                            raise UnexpectedResponseException(response, 'Server returned snapshot with record number %s while client requested for 0x%02x' % (
+                                '0x%02x' % gotten_record_number if gotten_record_number is not None else '<None>', snapshot_record_number))
 
         if subfunction in [services.ReadDTCInformation.Subfunction.reportDTCExtendedDataRecordByDTCNumber, services.ReadDTCInformation.Subfunction.reportMirrorMemoryDTCExtendedDataRecordByDTCNumber, services.ReadDTCInformation.Subfunction.reportUserDefMemoryDTCExtDataRecordByDTCNumber]:
             # Standard specifies that values between 0xF0 and 0xFF are for reporting groups (more than one record)
